@@ -253,7 +253,7 @@ def _atoms_of(v):
 # candle geometry
 
 
-def check_geometry(res: Result, repo):
+def check_geometry(res: Result, repo, prop="C17"):
     rule = "R-GEOM"
     ci = repo.cls("hexital.core.candle", "Candle")
     o, h, l, c = (A("attr", "self", f) for f in ("open", "high", "low", "close"))
@@ -285,7 +285,7 @@ def check_geometry(res: Result, repo):
         if len(paths) == 1 and repr(paths[0].ret) == repr(want) and not paths[0].state.heap:
             res.ok(rule, {"property": name, "value": repr(want)}, nontrivial=name)
         else:
-            res.fail(rule, finding("C17", rule, m, m.node, f"Candle.{name} must be {want!r} (computed from the current prices on every access); found {[repr(p.ret) for p in paths]}", construct=f"Candle.{name}"))
+            res.fail(rule, finding(prop, rule, m, m.node, f"Candle.{name} must be {want!r} (computed from the current prices on every access); found {[repr(p.ret) for p in paths]}", construct=f"Candle.{name}"))
     # shadows: guarded forms, equal to high - max(o,c) / min(o,c) - low for well-formed candles (case lemma)
     for name, when_pos, otherwise in (("shadow_upper", mk_fn("abs", h - c), mk_fn("abs", h - o)), ("shadow_lower", mk_fn("abs", l - o), mk_fn("abs", l - c))):
         m, paths = run(name)
@@ -313,7 +313,7 @@ def check_geometry(res: Result, repo):
         if ok:
             res.ok(rule, {"property": name, "positive candle": repr(when_pos), "otherwise": repr(otherwise), "lemma": "equals high - max(open, close) resp. min(open, close) - low for low <= open,close <= high"}, nontrivial=name)
         else:
-            res.fail(rule, finding("C17", rule, m, m.node, f"Candle.{name} must be {when_pos!r} for a positive candle and {otherwise!r} otherwise; found {[(show_cond(p.state.facts[-1]) if p.state.facts else '', repr(p.ret)) for p in paths]}", construct=f"Candle.{name}"))
+            res.fail(rule, finding(prop, rule, m, m.node, f"Candle.{name} must be {when_pos!r} for a positive candle and {otherwise!r} otherwise; found {[(show_cond(p.state.facts[-1]) if p.state.facts else '', repr(p.ret)) for p in paths]}", construct=f"Candle.{name}"))
 
 
 # ---------------------------------------------------------------------------
